@@ -149,6 +149,25 @@ int main (int argc, char **argv)
       else rc = sc_MPI_Allgatherv (s, cnt, dt (tok[1]), r, recvc, displs, dt (tok[1]), world);
       prc (rc); printf (" "); dump (r, rlen); guard (r, rlen); free (s); free (r);
     }
+    else if (!strcmp (c, "gathervx") || !strcmp (c, "allgathervx")) {
+      /* TS ns TR nr displ srchex rlen : different send and receive types with the same total length */
+      int ns = atoi (tok[2]), nr = atoi (tok[4]), displ = atoi (tok[5]); size_t rlen = (size_t) atol (tok[7]);
+      int recvc[1], displs[1];
+      unsigned char *s, *r = sentbuf (rlen); parse_hex (tok[6], &s, 1);
+      recvc[0] = nr; displs[0] = displ;
+      if (c[0] == 'g') rc = sc_MPI_Gatherv (s, ns, dt (tok[1]), r, recvc, displs, dt (tok[3]), 0, world);
+      else rc = sc_MPI_Allgatherv (s, ns, dt (tok[1]), r, recvc, displs, dt (tok[3]), world);
+      prc (rc); printf (" "); dump (r, rlen); guard (r, rlen); free (s); free (r);
+    }
+    else if (!strcmp (c, "gatherx") || !strcmp (c, "allgatherx") || !strcmp (c, "alltoallx")) {
+      /* TS ns TR nr srchex rlen */
+      int ns = atoi (tok[2]), nr = atoi (tok[4]); size_t rlen = (size_t) atol (tok[6]);
+      unsigned char *s, *r = sentbuf (rlen); parse_hex (tok[5], &s, 1);
+      if (c[0] == 'g') rc = sc_MPI_Gather (s, ns, dt (tok[1]), r, nr, dt (tok[3]), 0, world);
+      else if (c[2] == 'l' && c[3] == 'g') rc = sc_MPI_Allgather (s, ns, dt (tok[1]), r, nr, dt (tok[3]), world);
+      else rc = sc_MPI_Alltoall (s, ns, dt (tok[1]), r, nr, dt (tok[3]), world);
+      prc (rc); printf (" "); dump (r, rlen); guard (r, rlen); free (s); free (r);
+    }
     else if (!strcmp (c, "reduce") || !strcmp (c, "allreduce") || !strcmp (c, "reduce_scatter_block") ||
              !strcmp (c, "scan") || !strcmp (c, "exscan")) {
       /* OP T count srchex rlen */
